@@ -52,6 +52,8 @@ def profile(r, tier, index):
 
 
 def post(prog, r, tier, prof):
+    if r.random() < 0.3:
+        _common.inject_stealth(prog, r, 0.2)
     if prog["mode"] == "concurrent":
         for op in prog["ops"]:
             op["when"] = {"delay": r.choice((0.0, 0.0, 0.0, 0.001, 0.01, 0.05, 0.3))}
